@@ -13,6 +13,7 @@ THEOREMS = [
     "C07.included_only_first_partial", "C07.parent_builds_nearest", "C07.included_first_reported_partial",
     "C07.bump_build_reported_partial", "C07.reported_bump", "C07.skipped_version",
     "C07.included_first_spec_partial", "C07.included_first_exists_partial", "C07.included_first_git_partial",
+    "C07.analysis_total",
 ]
 TEXT = "BUG-9"
 NAMES = ["app", "core", "lib", "mid", "util", "zeta"]        # repository id = position (sorted() order of the names)
@@ -221,10 +222,29 @@ def oracle(case, replies):
             if not rep.startswith("ok"):
                 return "crash: the report is not produced (%s)" % rep
             order, reports = parse_col(rep)
-            msg = check_order(order, deps) or check_included(repos, reports)
+            msg = check_order(order, deps) or (check_included(repos, reports) if in_windows(repos) else None)
             if msg:
                 return msg
     return None
+
+
+def in_windows(repos):
+    """the quantifier "commit times within the cut-off windows", decided from the times alone: in every repository no
+    commit is more than 30 days younger than the head of a release/master branch (no branch is dropped as obsolete),
+    and no commit of a parent repository is a day or more older than some commit of one of its components (a bound
+    that keeps the component relevant whichever of its builds end up in the report)"""
+    by = {r["name"]: r for r in repos}
+    ts = {n: [G.commit_ts(c, i) for i, c in enumerate(r["hist"]["commits"])] for n, r in by.items()}
+    for n, r in by.items():
+        if not ts[n]:
+            continue
+        for nm, hd in r["hist"]["refs"]:
+            if (nm in ("master", "main") or nm.startswith("release/")) and max(ts[n]) > ts[n][hd] + 30 * G.DAY:
+                return False
+        for d in r["deps"]:
+            if d in ts and ts[d] and min(ts[n]) + G.DAY <= max(ts[d]):
+                return False
+    return True
 
 
 def check_order(order, deps):
@@ -556,8 +576,16 @@ def add_col_times(rng, repos, mode=None):
     graph), and no commit of a parent repository is a day or more older than a commit of one of its components (so a
     component with reported builds stays relevant down to the parent's roots, whichever of its builds are reported)"""
     if mode is None:
-        mode = "tight" if rng.random() < 0.3 else "spread"
+        x = rng.random()
+        mode = "tight" if x < 0.3 else "spread" if x < 0.9 else "loose"
     if mode == "tight":
+        return
+    if mode == "loose":         # anywhere, also outside the windows: compared with the model, not judged
+        for r in repos:
+            base = rng.randrange(40 * G.DAY)
+            span = rng.choice([G.DAY, 3 * G.DAY, 45 * G.DAY])
+            for c in r["hist"]["commits"]:
+                c["ts"] = base + rng.randrange(span + 1)
         return
     by = {r["name"]: r for r in repos}
     done = {}
@@ -715,6 +743,12 @@ def corpus():
 def tags(case, replies):
     yield case.get("meta", {}).get("kind", "?")
     if case["lines"][0].startswith("col"):
+        rs = [dec_repo(t) for t in case["lines"][0].split()[2:]]
+        if not in_windows(rs):
+            yield "outside-cut-off-windows(not judged)"
+        elif any(max(c["ts"] for c in r["hist"]["commits"]) - min(c["ts"] for c in r["hist"]["commits"]) > G.DAY
+                 for r in rs if r["hist"]["commits"]):
+            yield "times-spread>1day"
         if known_pin_cross(case):
             yield "pin-crosses-parallel-builds(not judged)"
         elif known_component_merges(case):
